@@ -12,8 +12,54 @@ import (
 	"os"
 	"runtime/debug"
 	"strings"
+	"syscall"
 	"testing"
 )
+
+// capture of everything the process writes to fd 1 / fd 2 while a purity harness runs
+type vCapture struct {
+	f            *os.File
+	save1, save2 int
+}
+
+func vStartCapture() *vCapture {
+	f, err := os.CreateTemp("", "vcap")
+	if err != nil {
+		return nil
+	}
+	c := &vCapture{f: f}
+	c.save1, _ = syscall.Dup(1)
+	c.save2, _ = syscall.Dup(2)
+	os.Stdout.Sync()
+	syscall.Dup2(int(f.Fd()), 1)
+	syscall.Dup2(int(f.Fd()), 2)
+	vOutputProbe = func() int {
+		st, err := f.Stat()
+		if err != nil {
+			return 0
+		}
+		return int(st.Size())
+	}
+	return c
+}
+
+func (c *vCapture) stop() string {
+	if c == nil {
+		return ""
+	}
+	syscall.Dup2(c.save1, 1)
+	syscall.Dup2(c.save2, 2)
+	syscall.Close(c.save1)
+	syscall.Close(c.save2)
+	vOutputProbe = nil
+	b, _ := os.ReadFile(c.f.Name())
+	c.f.Close()
+	os.Remove(c.f.Name())
+	if len(b) > 4000 {
+		b = b[:4000]
+	}
+	return string(b)
+}
 
 type vReq struct {
 	ID      string   `json:"id"`
@@ -31,6 +77,8 @@ type vResp struct {
 	PanicAt  string            `json:"panic_at,omitempty"`
 	Assume   bool              `json:"assume_failed,omitempty"`
 	Mismatch string            `json:"mismatch,omitempty"`
+	Output   string            `json:"output,omitempty"`
+	Race     bool              `json:"race,omitempty"`
 }
 
 func vRunOne(req vReq) (resp vResp) {
@@ -61,6 +109,13 @@ func vRunOne(req vReq) (resp vResp) {
 	if !ok {
 		resp.Mismatch = "unknown harness " + req.Harness
 		return
+	}
+	if strings.HasPrefix(req.Harness, "VH_pure") {
+		c := vStartCapture()
+		defer func() {
+			resp.Output = c.stop()
+			resp.Race = strings.Contains(resp.Output, "DATA RACE")
+		}()
 	}
 	f(req.Args)
 	return
